@@ -43,6 +43,18 @@ def plan(r, samples, i):
         else:
             argv += ["-m", f"Model{i}"] + ([lk] if lk else []) + [fname]
             args.append(("m", lk or "-", [doc]))
+    if r.random() < 0.3:
+        # a document that IS the empty object (as the file root, or at the end of a lookup): a real sample — it makes every
+        # field of the model optional
+        n += 1
+        fname = f"m{i}_f{n}.json"
+        if r.random() < 0.5:
+            doc, lk = {}, None
+        else:
+            doc, lk = {"data": {}, "other": 1}, "data"
+        files[fname] = json.dumps(doc)
+        argv += ["-m", f"Model{i}"] + ([lk] if lk else []) + [fname]
+        args.append(("m", lk or "-", [doc]))
     return files, argv, args
 
 
@@ -81,9 +93,13 @@ def options(r):
         argv += [r.choice(["--disable-unicode-conversion", "--no-unidecode"])]
         o["unidecode"] = False
     k = r.random()
-    if k < 0.2:
+    if k < 0.1:
         argv += ["--dkr", "[ab]", r"item_\d+"]
         o["dkr"] = ["^(?:[ab])$", r"^(?:item_\d+)$"]
+    elif k < 0.2:
+        # a top-level alternation: the anchors must apply to the whole expression
+        argv += ["--dkr", "a|b", r"\d+|[xy]"]
+        o["dkr"] = ["^(?:a|b)$", r"^(?:\d+|[xy])$"]
     elif k < 0.4:
         argv += ["--dkf", "items", "x"]
         o["dkf"] = ["items", "x"]
@@ -132,7 +148,8 @@ def one(job):
                     view_m.append((name, lk, [doc]))
         else:
             for i in range(nmodels):
-                samples = gen.Gen(r.randrange(10 ** 9), datetime=(o["rn"] == RN6)).samples(depth=2, nmax=4)
+                keys = gen.KEYS + ["ab", "a1", "12ab", "xy"] if o.get("dkr") else None
+                samples = gen.Gen(r.randrange(10 ** 9), datetime=(o["rn"] == RN6), keys=keys).samples(depth=2, nmax=4)
                 files, a, args = plan(r, samples, i)
                 for n, t in files.items():
                     sb.write(n, t)
